@@ -88,6 +88,9 @@ func lifeErrKind(err error) string {
 	return "other"
 }
 
+// lifeVetting: MINER_VETTING_SHARES of the sessions built next (0 in the lifecycle histories)
+var lifeVetting = 0
+
 func newLifeSess(maxCached int, idle time.Duration, pools []*vh.FakePool) *lifeSess {
 	s := &lifeSess{rec: &vh.Rec{}, pools: map[string]*vh.FakePool{}, exit: make(chan error, 1), minerUp: true}
 	for _, p := range pools {
@@ -121,7 +124,7 @@ func newLifeSess(maxCached int, idle time.Duration, pools []*vh.FakePool) *lifeS
 	s.alloc = allocator.NewAllocator(lib.NewCollection[*allocator.Scheduler](), log)
 	// the miner's idle read time is the configured one, its idle write time the fixed ten minutes (cmd/main.go)
 	handler := NewTCPHandler(log, log, log, func(string) (interfaces.ILogger, error) { return log, nil },
-		false, idle, 10*time.Minute, 0, maxCached, def, factory, hrf, gh, "mean", s.alloc,
+		false, idle, 10*time.Minute, lifeVetting, maxCached, def, factory, hrf, gh, "mean", s.alloc,
 		func(id string) (resources.Contract, bool) { return nil, false })
 	s.ctx, s.cancel = context.WithCancel(context.Background())
 	go func() {
